@@ -153,6 +153,14 @@ class SigmaCollection:
             ):  # Included rules are already parsed, skip collection action processing
                 parsed_rules.append(rule)
                 rule.source = source
+            elif not isinstance(rule, dict):
+                exception = SigmaCollectionError(
+                    f"Sigma rule { i } must be a map, not { type(rule).__name__ }", source=source
+                )
+                if collect_errors:
+                    errors.append(exception)
+                else:
+                    raise exception
             else:
                 action = rule.get("action")
                 if action is None:  # no action defined
@@ -373,7 +381,8 @@ class SigmaCollection:
 def deep_dict_update(dest: dict[Any, Any], src: dict[Any, Any]) -> dict[Any, Any]:
     for k, v in src.items():
         if isinstance(v, dict):
-            dest[k] = deep_dict_update(dest.get(k, {}), v)
+            dest_value = dest.get(k, {})
+            dest[k] = deep_dict_update(dest_value if isinstance(dest_value, dict) else {}, v)
         else:
             dest[k] = v
     return dest
